@@ -228,6 +228,68 @@ def unit(n, i):
     return c
 
 
+REDEF_EDITS = ['h', 'E11', 'nu', 'stack', 'plyt', 'laminaprop', 'r2', 'L', 'alphadeg', 'restraint']
+
+
+def redefinition_case(rng, t):
+    """ONE shell object is analysed, its wall / geometry / edge restraints are edited, and it is analysed again: the linear stiffness must be
+    that of a freshly defined shell with the edited data (it is the energy Hessian of the CURRENT definition).  Walls are given by a laminate
+    or - also for the general models - by (E11, nu, h).  returns (description, failure text or None)"""
+    from compmech.conecyl import ConeCyl
+    edit = REDEF_EDITS[t % len(REDEF_EDITS)]
+    iso_route = edit in ('h', 'E11', 'nu') or (edit in ('r2', 'L', 'alphadeg', 'restraint') and rng.random() < 0.4)
+    model = rng.choice(['clpt_donnell_bc1', 'clpt_donnell_bc3', 'clpt_sanders_bc1'] +
+                       (['iso_clpt_donnell_bc2', 'iso_clpt_donnell_bc3'] if iso_route else ['clpt_donnell_bc4', 'clpt_sanders_bc4', 'fsdt_donnell_bc1']))
+    d = dict(model=model, m1=3, m2=2, n2=2, r2=250., L=510., alphadeg=rng.choice([0., 15.]), kuBot=1.1e3, kphixTop=7.e4)
+    if iso_route:
+        d.update(E11=70e3, nu=0.3, h=1.2)
+    else:
+        d.update(laminaprop=LAMINAPROPS[0], stack=[0., 30., -45.], plyt=0.125)
+    new = dict(h=2.1, E11=113e3, nu=0.22, stack=[45., -45., 0., 90.], plyt=0.2, laminaprop=LAMINAPROPS[-1] if LAMINAPROPS[-1] != LAMINAPROPS[0] else
+               tuple(v * 1.3 if k != 2 else v for k, v in enumerate(LAMINAPROPS[0])), r2=310., L=420., alphadeg=27., restraint=None)[edit]
+
+    def make(dd):
+        cc = ConeCyl()
+        for k, v in dd.items():
+            setattr(cc, k, v)
+        return cc
+
+    def k0_of(cc):
+        with contextlib.redirect_stdout(QUIET), np.errstate(all='ignore'):
+            cc._calc_linear_matrices(silent=True)
+        return cc.k0.toarray()
+    d2 = dict(d)
+    if edit == 'restraint':
+        d2.update(kuBot=4.4e2, kphixTop=1.3e5, kvTop=2.2e3)
+    else:
+        d2[edit] = new
+    desc = dict(model=model, wall='E11/nu/h' if iso_route else 'laminate', edit=edit, before={k: d.get(k) for k in d2 if d.get(k) != d2[k]},
+                after={k: d2[k] for k in d2 if d.get(k) != d2[k]})
+    try:
+        cc = make(d)
+        k_first = k0_of(cc)
+        for k, v in d2.items():
+            if d.get(k) != v:
+                setattr(cc, k, v)
+        if edit in ('stack', 'plyt', 'laminaprop'):
+            # the per-ply lists `plyts` / `laminaprops` are public inputs that take precedence over `plyt` / `laminaprop` once they exist
+            # (the first analysis fills them in): a user who edits the uniform values resets the lists (same convention as for Panel)
+            cc.plyts, cc.laminaprops = [], []
+        k_again = k0_of(cc)
+        k_fresh = k0_of(make(d2))
+    except Exception as e:                                   # noqa
+        return desc, None
+    if k_again.shape != k_fresh.shape:
+        return desc, 'k0 after editing %s has shape %r, a freshly defined shell %r' % (edit, k_again.shape, k_fresh.shape)
+    sc = max(np.abs(k_fresh).max(), 1e-300)
+    dev = float(np.abs(k_again - k_fresh).max() / sc)
+    if dev > 1e-12:
+        moved = float(np.abs(k_first - k_fresh).max() / sc)
+        return desc, ('k0 of %s (wall by %s) after editing %s on an already analysed shell differs from that of a freshly defined shell with the '
+                      'edited data by %.3e of the largest entry (the edit itself moves k0 by %.3e)' % (model, desc['wall'], edit, dev, moved))
+    return desc, None
+
+
 def energy_hessian(cc, nx=40, nt=16):
     """second derivative of 1/2 Int eps^T F eps dA (package's own linear strain field) + elastic edge restraints"""
     from numpy.polynomial.legendre import leggauss
@@ -403,6 +465,10 @@ def correspondence(ctx):
         # so report the broken tie without a failing input
         ctx.violation('translator validation broken: ' + ctx.tie_broken[0], dict(kind='tie', detail=ctx.tie_broken[:5]), found_input=False)
         return
+    # source reading of the strain / stress field sources the energy oracle below is built from, and of two complete linear kernels
+    from tools import source_tie
+    if source_tie.check(ctx, 'C16', ('conecyl_clpt', 'conecyl_fsdt', 'linear_kernels')):
+        return
     for ident, text, rep in kernel_alpha0(ctx, rng):
         if ctx.violation('C16 fails on the implementation: ' + text, dict(kind='alpha0', **rep), identity=ident):
             return
@@ -459,6 +525,13 @@ def correspondence(ctx):
                                       dict(kind='psd_sweep', model=model, alphadeg=alphadeg), identity=bad_[0]):
                 return
     dist['psd_sweep_min_eig'] = psd
+    # redefinition stream: the stiffness belongs to the CURRENT definition of the shell (deterministic cycling of the edit kinds)
+    for t in range(ctx.scale(len(REDEF_EDITS), 4 * len(REDEF_EDITS))):
+        desc, bad = redefinition_case(rng, t)
+        ctx.evaluations += 1
+        dist['redefinitions'] = dist.get('redefinitions', 0) + 1
+        if bad and ctx.violation('C16 fails on the implementation: ' + bad, dict(kind='redefinition', case=desc)):
+            return
     n = ctx.scale(14, 160)
     for k in range(n):
         case, props = impl_case(ctx, rng)
